@@ -72,6 +72,13 @@ type callWithCustom struct {
 	Name string
 }
 
+// a destination whose field is renamed to the empty key
+type callEmptyTag struct {
+	Age  int
+	Name string `zog:""`
+	Zip  string
+}
+
 type callHeld struct {
 	kind   string
 	result any
@@ -312,6 +319,24 @@ func newCallWorld(x *mc.X) *callWorld {
 		var d callOuter
 		return s.Parse(map[string]any{"a": "x"}, &d), &d
 	}})
+	// unusual but legal destinations: a field whose tag renames it to the empty key (visited first, in the middle, last)
+	for _, rev := range []bool{false, true} {
+		rev := rev
+		for _, validate := range []bool{false, true} {
+			validate := validate
+			add(&callKind{name: fmt.Sprintf("Struct(field tagged zog:\"\")/validate=%v/reversed=%v", validate, rev), class: "empty-key", run: func(w *callWorld) (any, any) {
+				s := z.Struct(z.Schema{"age": z.Int().GT(5), "name": z.String().Min(3), "zip": z.String().Min(5)})
+				callOrder(rev)
+				defer callOrder(false)
+				if validate {
+					d := callEmptyTag{Age: 1, Name: "x", Zip: "1"}
+					return s.Validate(&d), &d
+				}
+				var d callEmptyTag
+				return s.Parse(map[string]any{"age": 1, "": "x", "zip": "1"}, &d), &d
+			}})
+		}
+	}
 	// the record through four front ends
 	docs := callRecDocs()
 	for _, dn := range []string{"valid", "failing", "empty", "nested-empty", "nested-null", "nested-wrong"} {
